@@ -21,7 +21,9 @@ class C07(Prop):
             "(recorded trades, commissions recomputed from the fee schedule, recorded interest, exchange quote history). "
             "Non-trivial = >= 2 record entries and (a spread or fees or a non-zero rate or latency > 0 or a margined "
             "contract); distinct = distinct cases")
-    rule = rule + "; a tenth of the cases trade a futures chain across a roll (C11's episodes, any reward)" + es.CONTEXT_RULE
+    rule = (rule + "; a tenth of the cases trade a futures chain across a roll (C11's episodes, any reward); in 30% the "
+            "track record's frames (NLV, costs, weights) are read after every step, as a progress log would, and "
+            "checked again at the end" + es.CONTEXT_RULE)
     nontrivial_tags = {"spread", "fees", "rate", "latency", "margined", "delay", "chain-roll"}
     assumptions = [
         "the quote in force at an execution is the last history row stamped <= the recorded execution time",
@@ -38,6 +40,7 @@ class C07(Prop):
             case["_chain"] = True
             return case
         rate_path = rng.random() < 0.5
+        read_frames = rng.random() < 0.3
         case, grid, keys = es.gen_episode(rng, tier, markov=False, warmup=None, one_per_bar=False,
                                           fees=rng.choice([["0", "0", "0"], ["0", "1/1000", "1/200"], ["1/4", "1/2000", "1/100"]]))
         if rate_path:
@@ -46,6 +49,7 @@ class C07(Prop):
                     rr = fr(F(round(rng.uniform(-0.01, 0.08), 4)))
                     case["events"].append(["q", "RATE", t, rr, rr])
         n = len(grid) - 1
+        case["read_frames"] = read_frames
         case["ops"] = [["reset", None, 0]] + es.gen_actions(rng, case, n)
         if rng.random() < 0.08:
             # a small account fully invested in one very expensive share, with a ticket fee: every step it sells a few
